@@ -1,8 +1,10 @@
 package main
 
 import (
+	"bytes"
 	"fmt"
 	"math/rand"
+	"os"
 	"regexp"
 	"regexp/syntax"
 	"strings"
@@ -105,6 +107,45 @@ func oracleC02(p *Pair, env *Env, a [][]byte) *Failure {
 	return nil
 }
 
+// the binary: what `regex generate -` prints is the regex the operator computed, byte for byte, and it passes the same
+// scan (the output path of the command — printing — is part of "the generated regex")
+func oracleC02CLI(p *Pair, env *Env, a [][]byte) *Failure {
+	gr := p.Impl(Op{"gen.run", a}, env.timeout)
+	if gr.Status != "ok" {
+		return nil
+	}
+	sb := mkSandbox(env)
+	defer os.RemoveAll(sb)
+	t := Tree{"regex-assembly/include/": nil, "regex-assembly/exclude/": nil}
+	files := a[7:]
+	for i := 0; i+2 < len(files); i += 3 {
+		dir := "include"
+		if string(files[i]) == "e" {
+			dir = "exclude"
+		}
+		t["regex-assembly/"+dir+"/"+string(files[i+1])] = files[i+2]
+	}
+	if !cfgIsEmpty(a[0:6]) {
+		t["regex-assembly/toolchain.yaml"] = []byte(toolchainYaml(a[0:6]))
+	}
+	_ = t.write(sb)
+	c := runCLI(env, sb, a[6], "-l", "disabled", "regex", "generate", "-")
+	if c.exit != 0 || !bytes.Equal(c.stdout, gr.Out[0]) {
+		return &Failure{What: "the binary does not print the regex the assembler computed",
+			Detail: fmt.Sprintf("program %q\nassembler %q\nbinary exit %d stdout %q", a[6], gr.Out[0], c.exit, c.stdout)}
+	}
+	pr := p.Impl(Op{"parse.run", append([][]byte{a[6]}, a[7:]...)}, env.timeout)
+	flags := ""
+	if pr.Status == "ok" {
+		flags = string(pr.Out[1])
+	}
+	if msg, finding := c02Scan(string(c.stdout), flags); msg != "" {
+		return &Failure{What: "printed regex cannot be pasted between the quotes of a SecRule line: " + msg, Finding: finding,
+			Detail: fmt.Sprintf("program %q\nstdout %q", a[6], c.stdout)}
+	}
+	return nil
+}
+
 // tokens for synthetic printer-like text: every neighbour combination matters for the passes
 var passTokens = []string{`"`, `\"`, `\\`, `\x5c`, `a`, `b`, ` `, `\t\n\f\r `, `[`, `]`, `[^`, `\s`, `-`, `~`, `\-`, `(`, `)`, `(?:`, `(?i:`, `(?s:`, `(?-s:`, `(?m:`, `(?i)`, `(?m)`,
 	`\(`, `\)`, `|`, `^`, `$`, `.`, `*`, `?`, "\t", "\n", "\x01", "é", "\xff", `\x{e9}`, `\.`, `{2}`, `\t`, `\n`, `!`, `x`, `\`}
@@ -121,9 +162,9 @@ func genPassText(r *rand.Rand) string {
 var passNames = []string{"useHexEscapes", "escapeDoublequotes", "useHexBackslashes", "includeVerticalTabInSpaceClass", "dontUseFlagsForMetaCharacters", "removeOutermostNonCapturingGroup", "cleanUp"}
 
 func genC02(r *rand.Rand, tier string, env *Env) []Case {
-	nProg, nSynth := 250, 500
+	nProg, nSynth, nCli := 250, 500, 20
 	if tier == "thorough" {
-		nProg, nSynth = 5000, 20000
+		nProg, nSynth, nCli = 5000, 20000, 300
 	}
 	var cases []Case
 	// exhaustive token bigrams (thorough: also trigrams over a smaller alphabet)
@@ -158,7 +199,18 @@ func genC02(r *rand.Rand, tier string, env *Env) []Case {
 		if i%8 == 5 {
 			p = genGroupingCorner(r) // escaped parentheses / pipes / backslashes at the edges of the alternation
 		}
-		cases = append(cases, Case{Kind: "program", Ops: []Op{p.genOp()}, Oracles: []Op{{"c02.lexical", p.genOp().Args}}})
+		c := Case{Kind: "program", Ops: []Op{p.genOp()}, Oracles: []Op{{"c02.lexical", p.genOp().Args}}}
+		if i < nCli {
+			c.Kind = "program+cli"
+			c.Oracles = append(c.Oracles, Op{"c02.cli", p.genOp().Args})
+		}
+		cases = append(cases, c)
+	}
+	// characters that mean something to the output path rather than to the regex: printf verbs, shell and terminal bytes
+	empty := [][]byte{{}, {}, {}, {}, {}, {}}
+	for _, prog := range []string{"a%\"b\n", "100%\\.\n", "%\\\\\n", "%d%s%v\n", "%!x(MISSING)\n", "%%\n100%\n", "a%\nb%\"\n", "%[1]d\n", "\\%\n", "$HOME`x`\n", "a\x1b[0mb\n", "%-5s|%+d\n"} {
+		args := append(append([][]byte{}, empty...), []byte(prog))
+		cases = append(cases, Case{Kind: "output-path", Ops: []Op{{"gen.run", args}}, Oracles: []Op{{"c02.lexical", args}, {"c02.cli", args}}})
 	}
 	return cases
 }
@@ -186,6 +238,7 @@ func escalatePassText(oracle ...string) func(d Disagreement) []Case {
 
 func init() {
 	oracles["c02.lexical"] = oracleC02
+	oracles["c02.cli"] = oracleC02CLI
 	properties["C02"] = &Property{
 		ID: "C02", LeanMods: []string{"CrsProps.C02"},
 		Corr: "K3 (each clean-up pass alone and composed vs Crs.Passes, on synthetic printer-like text incl. all token bigrams in the thorough tier), K5 (Operator.Run)",
